@@ -402,6 +402,8 @@ class _Interp:
         self.opaque = set()  # names of classes whose instances are not modelled (their method calls are effects)
         self.model = None  # optional callable(path, args, kwargs) -> value the rule supplies for an unmodelled call (NotImplemented: none)
         self.frames = [[]]  # per statement in execution (one per active routine and enclosing compound statement): the objects whose fields its own expressions read
+        self.skipped = []  # (loop, value of its iterable) of the loops that were skipped because the evaluator does not model the collection
+        self.raised = None  # the exception value with which the outermost evaluated routine ended (it is reported as _Undecided; a rule that ASKS whether the routine raises reads this)
 
     # -- decisions on unknown values ---------------------------------------------------------------------------------------------------------------
     def truth(self, v):
@@ -659,7 +661,10 @@ class _Interp:
                 emit(en)
                 return
             g = e.generators[i]
-            for x in self.iterate(self.ev(g.iter, en), g.iter):
+            elems = self.iterate(self.ev(g.iter, en), g.iter)
+            if elems is None:
+                raise _Undecided(f"comprehension over a collection that is not modelled: {short(g.iter, 50)}")
+            for x in elems:
                 e2 = {"v": {}, "up": en}
                 self.assign(g.target, x, e2)
                 self.ctx.append(x)
@@ -728,6 +733,7 @@ class _Interp:
             except (_Undecided, _Need):
                 raise
             except _Raised as x:
+                self.raised = x
                 raise _Undecided(f"the evaluated routine raises {x.v!r}")
             except (_Ret, _Brk, _Cnt):
                 raise _Undecided("jump outside a routine")
@@ -746,6 +752,10 @@ class _Interp:
             init = self.class_attr(f.node, f.mod, "__init__")
             if init is not None:
                 self.call_fn(_Fn(init[0], init[1], o), args, kwargs, node)
+            else:
+                flds = self.record_fields(f.node, f.mod)
+                if flds is not None:
+                    self.init_record(o, flds, args, kwargs, f.mod)
             return o
         if isinstance(f, _PyM):
             try:
@@ -760,6 +770,19 @@ class _Interp:
             return self.effect(f.name, args, kwargs, node)
         if isinstance(f, _T) and f.op == "builtin":
             return self.builtin(f.args[0], args, kwargs, node)
+        if isinstance(f, _T) and (f.path() or "") in ("itertools.islice", "islice", "itertools.chain", "chain", "itertools.chain.from_iterable", "chain.from_iterable") and not kwargs \
+                and args and not isinstance(args[0], _T):
+            import itertools
+            name = f.path().rsplit(".", 1)[-1]
+            if name == "islice" and not any(_opaque(a) for a in args[1:]):
+                try:
+                    return list(itertools.islice(self.iterate(args[0], node), *args[1:]))
+                except (TypeError, ValueError) as x:
+                    raise _Undecided(f"islice: {type(x).__name__}")
+            if name in ("chain", "from_iterable"):
+                parts = [self.iterate(a, node) for a in (args if name == "chain" else self.iterate(args[0], node))]
+                if all(p_ is not None for p_ in parts):
+                    return [x for p_ in parts for x in p_]
         if isinstance(f, _T):
             r = self.effect(f.path() or repr(f), args, kwargs, node, f)
             if self.model is not None:
@@ -768,6 +791,76 @@ class _Interp:
                     return m
             return r
         raise _Undecided(f"call of a {type(f).__name__}")
+
+    # -- classes whose constructor is GENERATED from their annotated class-level names (dataclasses, typing.NamedTuple) -----------------------------------------
+    def record_fields(self, cls, mod, depth=0):
+        """[(field, default expression or None, is a constructor parameter, module)] in constructor order (fields of record base classes first), or None if the class is
+        not a record class / its constructor is not the generated one."""
+        deco = [d for d in cls.decorator_list if (dotted(d.func if isinstance(d, ast.Call) else d) or "").rsplit(".", 1)[-1] == "dataclass"]
+        named = any((dotted(b) or "").rsplit(".", 1)[-1] == "NamedTuple" for b in cls.bases)
+        if not deco and not named:
+            return None
+        if any(isinstance(d, ast.Call) and any(k.arg == "init" and source.is_const(k.value, False) for k in d.keywords) for d in deco):
+            return None
+        out = []
+        if depth < 6:
+            for b in cls.bases:
+                bn = last_attr(b)
+                for m in [mod] + self.mods:
+                    base = next((st for st in m.tree.body if isinstance(st, ast.ClassDef) and st.name == bn and st is not cls), None)
+                    if base is not None:
+                        out += [x for x in (self.record_fields(base, m, depth + 1) or []) if x[0] not in {y[0] for y in out}]
+                        break
+        annotated = self.annotated_names(cls, mod)
+        for st in cls.body:
+            # (parse-time normalisation N7 has turned `x: T = v` into `x = v`: which class-level names are annotated - i.e. fields - is read off the class's own source text)
+            if isinstance(st, ast.AnnAssign) and isinstance(st.target, ast.Name) and st.target.id in annotated:
+                name, default = st.target.id, st.value
+            elif isinstance(st, ast.Assign) and len(st.targets) == 1 and isinstance(st.targets[0], ast.Name) and st.targets[0].id in annotated:
+                name, default = st.targets[0].id, st.value
+            else:
+                continue
+            is_param = True
+            if isinstance(default, ast.Call) and (dotted(default.func) or "").rsplit(".", 1)[-1] == "field":
+                kw = {k.arg: k.value for k in default.keywords}
+                is_param = not source.is_const(kw.get("init"), False) if "init" in kw else True
+                default = kw["default"] if "default" in kw else (ast.Call(func=kw["default_factory"], args=[], keywords=[]) if "default_factory" in kw else None)
+            out = [x for x in out if x[0] != name] + [(name, default, is_param, mod)]
+        return out
+
+    @staticmethod
+    def annotated_names(cls, mod):
+        """the class-level names of the parsed class that carry an annotation other than ClassVar (the fields of a record class), from the class's source text"""
+        import textwrap
+        try:
+            raw = ast.parse(textwrap.dedent("\n".join(mod.text.splitlines()[cls.lineno - 1: cls.end_lineno])))
+        except (SyntaxError, AttributeError, TypeError):
+            raise _Undecided(f"source text of class {cls.name}")
+        body = raw.body[0].body if raw.body and isinstance(raw.body[0], ast.ClassDef) else []
+        return {st.target.id for st in body if isinstance(st, ast.AnnAssign) and isinstance(st.target, ast.Name) and "ClassVar" not in u(st.annotation)}
+
+    def init_record(self, o, flds, args, kwargs, mod):
+        params = [x for x in flds if x[2]]
+        if len(args) > len(params):
+            raise _Undecided(f"too many arguments for the generated constructor of {o.name}")
+        vals = {x[0]: v for x, v in zip(params, args)}
+        for k, v in kwargs.items():
+            if k in vals or k not in {x[0] for x in params}:
+                raise _Undecided(f"argument {k} of the generated constructor of {o.name}")
+            vals[k] = v
+        for name, default, _, fmod in flds:
+            if name not in vals:
+                if default is None:
+                    raise _Undecided(f"field {name} of {o.name} not bound")
+                self.modstack.append(fmod)
+                try:
+                    vals[name] = self.ev(default, {"v": {}, "up": None})
+                finally:
+                    self.modstack.pop()
+            o.f[name] = vals[name]
+        post = self.class_attr(o.cls, o.mod, "__post_init__")
+        if post is not None:
+            self.call_fn(_Fn(post[0], post[1], o), [], {}, post[0])
 
     def effect(self, path, args, kwargs, node, f=None):
         ef = _Eff(path, list(args), dict(kwargs), tuple(self.ctx), node, self.watch() if self.watch else None)
@@ -998,9 +1091,11 @@ class _Interp:
         self.run(s.orelse, env)
 
     def s_For(self, s, env):
-        it = self.iterate(self.ev(s.iter, env), s.iter)
+        v = self.ev(s.iter, env)
+        it = self.iterate(v, s.iter)
         if it is None:
-            return  # a loop over a collection the evaluator does not model (e.g. what an unmodelled call returned) is skipped
+            self.skipped.append((s, v))  # a loop over a collection the evaluator does not model (e.g. what an unmodelled call returned) is skipped - and remembered: a rule
+            return                       # whose verdict depends on what such a loop would have done must answer 'not recognised' (see _require_loops_modelled)
         for x in it:
             self.assign(s.target, x, env)
             self.ctx.append(x)
@@ -1016,12 +1111,38 @@ class _Interp:
 
     s_AsyncFor = s_For
 
+    @staticmethod
+    def exc_name(v):
+        """last name component of a raised value / an exception class expression that was evaluated (class, instance, unmodelled global, call of one)"""
+        if isinstance(v, _Cls):
+            return v.node.name
+        if isinstance(v, _O):
+            return v.name
+        if isinstance(v, _T):
+            if v.op == "call" and isinstance(v.args[0], _T):
+                v = v.args[0]
+            if v.op == "builtin":
+                return str(v.args[0])
+            return (v.path() or "").rsplit(".", 1)[-1] or None
+        return None
+
+    @staticmethod
+    def catches(names, rn):
+        return any(n_ is None or n_ in ("Exception", "BaseException") or (rn is not None and n_ == rn) for n_ in names)
+
     def s_With(self, s, env):
+        suppressed = []
         for it in s.items:
             v = self.ev(it.context_expr, env)
+            if isinstance(v, _T) and v.op == "call" and isinstance(v.args[0], _T) and (v.args[0].path() or "").rsplit(".", 1)[-1] == "suppress":
+                suppressed += [self.exc_name(a) or "?" for a in v.args[1]]  # contextlib.suppress(E, ...): the body ends silently at the first E
             if it.optional_vars is not None:
                 self.assign(it.optional_vars, v if isinstance(v, _T) else _T("entered", v), env)
-        self.run(s.body, env)
+        try:
+            self.run(s.body, env)
+        except _Raised as r:
+            if not (suppressed and self.catches(suppressed, self.exc_name(r.v))):
+                raise
 
     s_AsyncWith = s_With
 
@@ -1032,10 +1153,7 @@ class _Interp:
             except _Raised as r:
                 for h in s.handlers:
                     names = [last_attr(t) for t in (h.type.elts if isinstance(h.type, ast.Tuple) else [h.type])] if h.type is not None else [None]
-                    rn = r.v.node.name if isinstance(r.v, _Cls) else r.v.name if isinstance(r.v, _O) else (r.v.path() or "").rsplit(".", 1)[-1] if isinstance(r.v, _T) else None
-                    if rn is None and isinstance(r.v, _T) and r.v.op == "call" and isinstance(r.v.args[0], _T):
-                        rn = (r.v.args[0].path() or "").rsplit(".", 1)[-1]
-                    if any(n_ is None or n_ in ("Exception", "BaseException") or n_ == rn for n_ in names):
+                    if self.catches(names, self.exc_name(r.v)):
                         if h.name:
                             env["v"][h.name] = r.v
                         self.run(h.body, env)
@@ -1047,6 +1165,27 @@ class _Interp:
         finally:
             if s.finalbody:
                 self.run(s.finalbody, env)
+
+
+def _has_call_of(v, paths, depth=0):
+    """the term v contains the result of an (unmodelled) call of one of the callees `paths`"""
+    if depth > 10:
+        return False
+    if isinstance(v, _T):
+        if v.op == "call" and isinstance(v.args[0], _T) and (v.args[0].path() or repr(v.args[0])) in paths:
+            return True
+        return any(_has_call_of(a, paths, depth + 1) for a in v.args)
+    if isinstance(v, (list, tuple)):
+        return any(_has_call_of(a, paths, depth + 1) for a in v)
+    return False
+
+
+def _require_loops_modelled(it, inputs, explained=()):
+    """'not recognised' if the evaluation skipped a loop whose collection is computed from one of `inputs` (so that what the loop does with them is not known), unless the
+    collection is what one of the callees `explained` returned (the rule accounts for those calls itself)."""
+    for loop, v in it.skipped:
+        if any(_mentions(v, x) for x in inputs if x is not None) and not _has_call_of(v, set(explained)):
+            raise _Undecided(f"the loop `for ... in {short(loop.iter, 50)}` at line {getattr(loop, 'lineno', '?')} runs over a collection that is not modelled")
 
 
 def _explore(make, limit=48):
@@ -1522,80 +1661,144 @@ def _sampler_roles(drv):
     return S, q, ex[drains[0]], ex[adds[0]], qcalls
 
 
+class _QueueModel:
+    """The sampler's queue on representative values (the `model` of an evaluation: the queue attribute holds an unmodelled global, the calls on it are answered here):
+    get_nowait() / get(False) hand out the oldest pending element or raise queue.Empty, put / put_nowait append (or raise queue.Full when the scenario says the queue is full),
+    empty() / qsize() / full() answer from the content. A scenario may let the k-th get / the first put fail with an error that is NOT Empty / Full."""
+
+    NAME = "queue#"
+
+    def __init__(self, items=(), fail_get=None, fail_put=False, full=False):
+        self.items, self.head, self.gets, self.handed_out, self.put_calls = list(items), 0, 0, 0, []
+        self.fail_get, self.fail_put, self.is_full = fail_get, fail_put, full
+
+    def pending(self):
+        return self.items[self.head:]
+
+    def __call__(self, path, args, kwargs):
+        if not path.startswith(self.NAME + "."):
+            return NotImplemented
+        op = path[len(self.NAME) + 1:]
+        if op in ("get_nowait", "get"):
+            self.gets += 1
+            if self.fail_get == self.gets:
+                raise _Raised(_T("global", "OSError"))
+            if self.head < len(self.items):
+                self.head += 1
+                self.handed_out += 1
+                return self.items[self.head - 1]
+            block = (args[0] if args else kwargs.get("block", True)) if op == "get" else False
+            timeout = (args[1] if len(args) > 1 else kwargs.get("timeout")) if op == "get" else None
+            if _opaque(block) or _opaque(timeout):
+                raise _Undecided("get() with an unknown blocking mode")
+            if block and timeout is None:
+                raise _Undecided("a blocking get() on the empty queue does not return")
+            raise _Raised(_T("attr", _T("global", "queue"), "Empty"))
+        if op in ("put_nowait", "put"):
+            self.put_calls.append(args[0] if args else kwargs.get("item"))
+            if self.fail_put:
+                raise _Raised(_T("global", "OSError"))
+            if self.is_full:
+                raise _Raised(_T("attr", _T("global", "queue"), "Full"))
+            self.items.append(self.put_calls[-1])
+            return None
+        if op == "empty":
+            return self.head >= len(self.items)
+        if op == "qsize":
+            return len(self.items) - self.head
+        if op == "full":
+            return self.is_full
+        return NotImplemented
+
+
+def _sampler_eval(drv, S, q, fn, qm, args=(), kwargs=None, oracle=()):
+    """method fn of the sampler evaluated against the queue model; returns (returned value, exception value it ended with or None, interp)"""
+    it = _Interp([drv], oracle)
+    it.model = qm
+    selfo = _O("sampler", S, drv, **{q: _T("global", _QueueModel.NAME)})
+    try:
+        return it.call(_Fn(fn, drv, selfo), list(args), dict(kwargs or {}), fn), None, it
+    except _Undecided:
+        if it.raised is None:
+            raise
+        return None, it.raised.v, it
+
+
+_DRAIN_SIZES = (0, 1, 3, 1000, 1001, 5000, 16385)  # 16384: the default capacity of the sampler queue
+
+
 def _o71(chk, drv):
+    """Decided on VALUES: the drain and the add routine are evaluated against a model of the queue (see _QueueModel), whatever their control flow looks like (try around or inside
+    the loop, contextlib.suppress, break on Empty, emptiness test, helper methods, renamed locals). Structural is only what says WHICH routine / attribute plays which role."""
     S, q, smp, add, qcalls = _sampler_roles(drv)
+    sm = drv.methods(S)
+    smp_fn, add_fn = sm.get(smp.name, smp), sm.get(add.name, add)
     gets = qcalls(smp, ("get_nowait", "get"))
-    defs = local_defs(smp)
+    what = "drain: every element leaves the queue through its own get, in a loop that ends on Empty; the accumulated list is returned"
     if not gets:
-        chk.ob("O7.1", "drain: every element leaves the queue through its own get, in a loop that ends on Empty; the accumulated list is returned", False, smp,
+        chk.ob("O7.1", what, False, smp,
                f"`{smp.name}` reads the queue `{q}` but never dequeues through get_nowait()/get(): elements added concurrently between its steps are lost or returned twice")
-    elif len(gets) > 1:
-        chk.unknown("O7.1", f"drain `{smp.name}` dequeues at {len(gets)} places", smp)
     else:
-        g0 = gets[0]
-        loop = source.enclosing(g0, (ast.While, ast.For))
-        p = source.parent(g0)
-        acc = None
-        if isinstance(p, ast.Call) and last_attr(p.func) == "append" and isinstance(p.func.value, ast.Name):
-            acc = p.func.value.id
-        elif isinstance(p, ast.Assign) and len(p.targets) == 1 and isinstance(p.targets[0], ast.Name) and loop is not None:
-            v = p.targets[0].id
-            apps = [c for c in ast.walk(loop) if isinstance(c, ast.Call) and last_attr(c.func) == "append" and isinstance(c.func.value, ast.Name) and len(c.args) == 1
-                    and isinstance(c.args[0], ast.Name) and c.args[0].id == v]
-            if len(apps) == 1 and not guards(apps[0], stop=loop, path_sensitive=True):
-                acc = apps[0].func.value.id
-        rets = [n for n in walk_body(smp) if isinstance(n, ast.Return)]
-        if acc is None or not isinstance(loop, ast.While) or not rets:
-            chk.unknown("O7.1", f"drain `{smp.name}`: accumulate-in-a-while-loop shape not recognised (accumulator={acc}, loop={type(loop).__name__})", smp)
-        else:
+        try:
             bad = []
-            # the loop (and any condition around the get inside it) holds for every size of the accumulated list: decided on values
-            for t, pol in [(loop.test, True)] + guards(g0, stop=loop, path_sensitive=True):
-                for size in (0, 1, 999, 1000, 5000, 1 << 17):
-                    try:
-                        it = _Interp([drv])
-                        v = it.truth(it.ev(t, {"v": {acc: [0] * size, "self": _O("self")}, "up": None}))
-                    except (_Undecided, _Need) as x:
-                        chk.unknown("O7.1", f"drain `{smp.name}`: condition `{short(t, 50)}` not decided ({x})", t)
-                        break
-                    if v != pol:
-                        bad.append(f"`{short(t, 50)}` stops the drain with {size} element(s) read while the queue may hold more")
-                        break
-            tr = source.enclosing(g0, ast.Try)
-            hs = [last_attr(t_) for h in (tr.handlers if tr is not None else []) for t_ in ((h.type.elts if isinstance(h.type, ast.Tuple) else [h.type]) if h.type is not None else [None])]
-            if tr is None or not hs:
-                bad.append("the dequeue is not inside a try that ends the loop on Empty")
-            elif any(h != "Empty" for h in hs):
-                bad.append(f"handler(s) {hs}: anything but queue.Empty is swallowed together with the elements read so far")
-            for x in ast.walk(loop):
-                if isinstance(x, ast.Continue) or (isinstance(x, ast.Break) and not (isinstance(source.enclosing(x, ast.ExceptHandler), ast.ExceptHandler) and last_attr(source.enclosing(x, ast.ExceptHandler).type) == "Empty")):
-                    bad.append(f"`{type(x).__name__.lower()}` at line {x.lineno} leaves / skips the loop other than on Empty")
-            for r in rets:
-                rv = r.value
-                while isinstance(rv, ast.Name) and rv.id != acc and rv.id in defs:
-                    rv = defs[rv.id]
-                if not (isinstance(rv, ast.Name) and rv.id == acc):
-                    bad.append(f"`{short(r, 40)}` does not return the accumulated list `{acc}`")
-            chk.ob("O7.1", "drain: every element leaves the queue through its own get, in a loop that ends on Empty; the accumulated list is returned", not bad, smp, "; ".join(bad) or f"accumulator={acc}")
+            for n in _DRAIN_SIZES:
+                items = _rep(n, "e")
+                qm = _QueueModel(items)
+                ret, exc, _ = _sampler_eval(drv, S, q, smp_fn, qm)
+                if exc is not None:
+                    bad.append(f"with {n} element(s) queued the drain ends with {_Interp.exc_name(exc) or repr(exc)} instead of returning what it read ({qm.handed_out} element(s) dequeued and lost)")
+                elif not isinstance(ret, (list, tuple)):
+                    raise _Undecided(f"the drain returns {ret!r}"[:120])
+                elif not (len(ret) == n and all(a is b for a, b in zip(ret, items))):
+                    got = sum(1 for x in ret if any(x is y for y in items))
+                    bad.append(f"with {n} element(s) queued the drain dequeues {qm.handed_out} and returns {got} of them" + (f" ({len(qm.pending())} stay queued while the queue is not empty)" if qm.pending() else "")
+                               + ("" if got != n or len(ret) != n else " in another order"))
+                if bad:
+                    break
+            if not bad:
+                # an error other than Empty raised by the dequeue is not swallowed together with the end-of-queue signal
+                qm = _QueueModel(_rep(3, "e"), fail_get=2)
+                ret, exc, _ = _sampler_eval(drv, S, q, smp_fn, qm)
+                if exc is None:
+                    bad.append("an error other than queue.Empty raised by the dequeue ends the drain silently: anything but queue.Empty is swallowed together with the elements still queued")
+            chk.ob("O7.1", what, not bad, smp, "; ".join(bad) or f"evaluated for queues of {', '.join(map(str, _DRAIN_SIZES))} element(s): all returned in order, queue empty afterwards")
+        except (_Undecided, _Need) as x:
+            chk.unknown("O7.1", f"drain `{smp.name}` not evaluated against the queue model: {x}", smp)
+    # add: on every path exactly one put of an object built from the arguments; only a full queue drops it
+    what = "add: put_nowait(Sample(...)) unconditionally, dropping only on queue.Full"
     puts = qcalls(add, ("put_nowait", "put"))
-    if len(puts) != 1:
-        chk.ob("O7.1", "add: put_nowait(Sample(...)) unconditionally, dropping only on queue.Full", False, add,
-               f"`{add.name}` touches the queue `{q}` with {len(puts)} put call(s)") if not puts else chk.unknown("O7.1", f"`{add.name}` enqueues at {len(puts)} places", add)
+    if not puts:
+        chk.ob("O7.1", what, False, add, f"`{add.name}` touches the queue `{q}` with 0 put call(s)")
     else:
-        adefs = local_defs(add)
-        tr = source.enclosing(puts[0], ast.Try)
-        a0 = puts[0].args[0] if puts[0].args else None
-        a0 = adefs.get(a0.id, a0) if isinstance(a0, ast.Name) else a0
-        hs = [last_attr(t_) for h in (tr.handlers if tr is not None else []) for t_ in ((h.type.elts if isinstance(h.type, ast.Tuple) else [h.type]) if h.type is not None else [None])]
-        bad = []
-        if any(h != "Full" for h in hs):
-            bad.append(f"handler(s) {hs} around the put: a sample is dropped on something else than queue.Full")
-        gs = guards(puts[0], path_sensitive=True)
-        if gs:
-            bad.append(f"the put is conditional on `{short(gs[0][0], 40)}`")
-        if not (isinstance(a0, ast.Call) and last_attr(a0.func) == "Sample"):
-            bad.append(f"what is enqueued is `{short(a0, 40) if a0 is not None else None}`, not a Sample built from the arguments")
-        chk.ob("O7.1", "add: put_nowait(Sample(...)) unconditionally, dropping only on queue.Full", not bad, add, "; ".join(bad))
+        ps = [p for p in params_of(add_fn)[1:]] + [a.arg for a in add_fn.args.kwonlyargs]
+        try:
+            bad = []
+
+            def paths(**scenario):
+                def make(oracle):
+                    qm = _QueueModel([], **scenario)
+                    marks = {p: _T("global", f"arg:{p}") for p in ps}
+                    return (qm, marks), lambda: _sampler_eval(drv, S, q, add_fn, qm, [], marks, oracle)
+
+                return [(qm, marks, res) for (qm, marks), res in _explore(make)]
+
+            for qm, marks, (ret, exc, it) in paths():
+                if exc is not None:
+                    raise _Undecided(f"`{add.name}` ends with {_Interp.exc_name(exc) or repr(exc)} on representative arguments")
+                if len(qm.put_calls) != 1:
+                    cond = sorted({k for k in it.memo})
+                    bad.append(f"{len(qm.put_calls)} put call(s) on a path" + (f" (the put is conditional on `{cond[0][:60]}`)" if cond else ""))
+                    continue
+                obj = qm.put_calls[0]
+                carried = [p for p, m in marks.items() if _mentions(obj, m)]
+                if not (isinstance(obj, _O) and obj.cls is not None and carried):
+                    bad.append(f"what is enqueued is `{obj!r}`"[:80] + ", not a Sample built from the arguments")
+            for qm, marks, (ret, exc, it) in paths(fail_put=True):
+                if exc is None and qm.put_calls:
+                    bad.append("an error other than queue.Full raised by the put is swallowed: a sample is dropped on something else than queue.Full")
+            chk.ob("O7.1", what, not bad, add, "; ".join(dict.fromkeys(bad)))
+        except (_Undecided, _Need) as x:
+            chk.unknown("O7.1", f"`{add.name}` not evaluated against the queue model: {x}", add)
     if _is_property(smp):
         chk.ob("O7.1", "drain is exposed as a property (every read drains)", True, smp, "")
     else:
@@ -1610,7 +1813,7 @@ class _Ship:
 
     def __init__(self, drv, flow, fn, pending):
         self.reads = 0
-        self.pending = list(pending or [])
+        self.pending = given = list(pending or [])
 
         def drain():
             self.reads += 1
@@ -1621,6 +1824,7 @@ class _Ship:
         self.it = _Interp([drv])
         self.selfo = _O("self", drv.cls("Worker"), drv, **{flow.sampler: self.sampler, "worker_id": 3})
         self.ret = self.it.call(_Fn(fn, drv, self.selfo), [], {}, fn)
+        _require_loops_modelled(self.it, [given])
         self.msgs = [(e, a) for e in self.it.effects for a in e.args + list(e.kwargs.values()) if isinstance(a, _O) and a.cls is not None and a is not self.selfo]
 
 
@@ -1649,6 +1853,10 @@ def _o72(chk, repo, drv):
             continue
         ok = full.reads == 1 and empty.reads <= 1 and none.reads == 0
         chk.ob("O7.2", "the draining property is read exactly once per shipment", ok, fn, f"{full.reads} read(s) with samples pending, {empty.reads} with none")
+        blank = [m for sh in [full] + [sh for _, sh in sizes] for _, m in sh.msgs if not m.f]
+        if blank:  # a message object without any evaluated field: its constructor is not modelled, so what it carries is not known (not: it carries nothing)
+            chk.unknown("O7.2", f"the fields of the `{blank[0].name}` message built by `{n}` are not recognised (its class has no constructor the evaluation can follow)", fn)
+            continue
         sent = [(e, m, [k for k, v in m.f.items() if isinstance(v, list) and len(v) == 3 and all(isinstance(x, _O) and x.name.startswith("s") for x in v)]) for e, m in full.msgs]
         carrying = [(e, m, ks) for e, m, ks in sent if ks]
         ok = len(carrying) == 1 and full.reads >= 1
@@ -1704,6 +1912,7 @@ def _run_pp(drv, D, spp, pp, raw_attr, content):
     selfo = _O("self", D, drv, **fields)
     it.watch = lambda: (selfo.f.get(raw_attr), list(selfo.f.get(raw_attr)) if isinstance(selfo.f.get(raw_attr), list) else None)
     it.call(_Fn(pp, drv, selfo), [], {}, pp)
+    _require_loops_modelled(it, [content])
     return it, selfo, [e for e in it.effects if e.path == "post_processor"]
 
 
@@ -1774,6 +1983,7 @@ def _o73(chk, drv, raw_attr, ships):
             old, d = fresh()
             it = _Interp([drv])
             it.call(_Fn(us, drv, d), [payload], {}, us)
+            _require_loops_modelled(it, [payload, old])
             got = d.f.get(raw_attr)
             if not (isinstance(got, list) and len(got) == len(old) + len(payload) and all(a is b for a, b in zip(got, old + payload))):
                 bad.append(f"a payload of {len(payload)} after 2 pending samples leaves {[getattr(x, 'name', x) for x in got] if isinstance(got, list) else got!r}")
@@ -1791,6 +2001,7 @@ def _o73(chk, drv, raw_attr, ships):
             old, d = fresh()
             it = _Interp([drv])
             it.call(_Fn(h, drv, _O("actor", DA, drv, **{dattr: d})), [sh.msgs[0][1], _T("global", "sender")], {}, h)
+            _require_loops_modelled(it, [old] + [v for v in sh.msgs[0][1].f.values() if isinstance(v, list)])
             got = d.f.get(raw_attr)
             if not (isinstance(got, list) and len(got) == 5 and all(isinstance(x, _O) for x in got) and [x.name for x in got] == ["old0", "old1", "s0", "s1", "s2"]):
                 bad.append(f"the shipped samples s0..s2 arrive as {[getattr(x, 'name', x) for x in got] if isinstance(got, list) else got!r}")
@@ -1880,6 +2091,9 @@ class _PostProcessed:
             elif any(_mentions(a, self.raw) or (isinstance(a, list) and a and all(isinstance(x, _O) and x.name.startswith("sample") for x in a)) for a in e.args + list(e.kwargs.values())) \
                     and "logg" not in e.path.lower() and e.name not in ("len",):
                 self.calc.append(e)
+        # a skipped loop over (something computed from) the batch: what it writes is not known - unless it runs over what a call that received the batch returned (the throughput
+        # values: those calls are judged on their own)
+        _require_loops_modelled(it, [self.raw] + [s_.f["dependent_timings"] for s_ in self.raw], explained={e.path for e in self.calc if e.path.split(".")[0] in it.opaque})
         self.k, self.n = k, n
         self.kept = [s for i, s in enumerate(self.raw) if i % k == 0]
 
@@ -1920,6 +2134,7 @@ def _o75(chk, drv, met):
     except (_Undecided, _Need) as x:
         chk.unknown("O7.5", f"SamplePostprocessor.__call__ not evaluated on the representative batch: {x}", spc)
         return spc
+    drv._c07_pp = runs  # O7.11 reads the sample attribute behind the records' sample type off the same evaluation
     main = lambda r: [(f, s, n_) for f, s, t, n_ in r.records if s is not None and t is None and f.get("name") != "throughput"]  # noqa: E731
     dep = lambda r: [(f, s, t, n_) for f, s, t, n_ in r.records if t is not None]  # noqa: E731
     site = lambda recs: next((n_ for *_, n_ in recs if n_ is not None), spc)  # noqa: E731
@@ -2004,6 +2219,7 @@ def _o75(chk, drv, met):
     bad = []
     for r in runs:
         calls = [e for e in r.calc if e.name != "put_value_cluster_level"]
+        calls = [e for e in calls if e.path.split(".")[0] == "ThroughputCalculator"] or calls  # the calls on the throughput calculator (an unmodelled object), if it is one
         whole = [e for e in calls if any(isinstance(a, list) and len(a) == len(r.raw) and all(x is y for x, y in zip(a, r.raw)) for a in e.args + list(e.kwargs.values()))]
         if len(whole) != 1 or len(calls) != 1:
             bad.append(f"factor {r.k}: {len(calls)} call(s) receive samples, {len(whole)} of them the whole batch of {len(r.raw)}"
@@ -2120,7 +2336,10 @@ def _o76(chk, repo, drv, rc, met, spp_attr, pps):
         if v is not None and sum(1 for n in walk_body(jx) if isinstance(n, ast.Name) and isinstance(n.ctx, ast.Store) and n.id == v) > 1:
             # the local is bound more than once in the routine: only uses dominated by this binding count
             cb = [x for x in cb if gj.dominated_by_nodes(gj.node_of(x), [gj.node_of(c)])]
-        if v is None and not cb:
+        used = v is not None and any(isinstance(n, ast.Name) and isinstance(n.ctx, ast.Load) and n.id == v for n in walk_body(jx))
+        if not cb and (v is None or used):
+            # the value goes somewhere, but not as such into a callback of the driver actor: where it ends up is not recognised (a value that is bound to a local which is
+            # never read again IS located and wrong: the externalised - and cleared - metrics are dropped)
             chk.unknown("O7.6", f"what `{short(source.enclosing_stmt(c), 60)}` does with the externalised metrics is not recognised", c)
             continue
         chk.ob("O7.6", "externalised metrics handed to the driver actor", len(cb) == 1, c, short(cb[0], 60) if cb else "value not passed on")
@@ -2141,15 +2360,20 @@ def _o76(chk, repo, drv, rc, met, spp_attr, pps):
         others = [p for p in params_of(cbf)[1:] if p != par]
         M = _O("metrics")
         try:
-            sent, per_path = [], []
+            sent, per_path, blank = [], [], []
             import itertools
             for combo in itertools.islice(itertools.product((0, 1.0), repeat=len(others)), 4):
                 for it, o in _paths([drv], cbf, drv, "actor", DA, [], {par: M, **dict(zip(others, combo))}):
-                    mine = [a for e in it.effects for a in e.args + list(e.kwargs.values()) if isinstance(a, _O) and a.cls is not None and a is not o and any(v_ is M for v_ in a.f.values())]
+                    objs = [a for e in it.effects for a in e.args + list(e.kwargs.values()) if isinstance(a, _O) and a.cls is not None and a is not o]
+                    mine = [a for a in objs if any(v_ is M for v_ in a.f.values())]
+                    blank += [a for a in objs if not a.f]
                     per_path.append((combo, len(mine)))
                     sent += mine
         except (_Undecided, _Need) as x:
             chk.unknown("O7.6", f"DriverActor.{cbname} not evaluated: {x}", cbf)
+            continue
+        if blank:  # a message object without any evaluated field: its constructor is not modelled, so what it carries is not known (not: it carries nothing)
+            chk.unknown("O7.6", f"the fields of the `{blank[0].name}` message built by DriverActor.{cbname} are not recognised (its class has no constructor the evaluation can follow)", cbf)
             continue
         msgname = sent[0].cls.name if sent else "?"
         bad = [f"{dict(zip(others, combo))}: {k} message(s) carrying the metrics" for combo, k in per_path if k != 1]
@@ -2274,7 +2498,9 @@ def _o77(chk, met):
             it = _Interp([met])
             it.model = lambda path, args, kwargs: list(restored) if path.endswith("loads") else args[0] if path.endswith("decompress") and args else NotImplemented
             o = _O("store", IM, met, **{docs_attr: list(old)})
-            it.call(_Fn(ba, met, o), ["memento"], {}, ba)
+            memento = _O("memento")
+            it.call(_Fn(ba, met, o), [memento], {}, ba)
+            _require_loops_modelled(it, [memento, restored])
             if not any(e.name == "loads" for e in it.effects):
                 chk.unknown("O7.7", "MetricsStore.bulk_add: how the hand-over is restored (…loads) is not recognised", ba)
             else:
@@ -2342,6 +2568,7 @@ class _EsFlush:
 
         out = []
         for (it, o), _ in _explore(make):
+            _require_loops_modelled(it, [content])
             sends = [e for e in it.effects if "logg" not in e.path.lower() and any(isinstance(a, list) and (a is e.state[0] or (a and all(isinstance(x, _O) and x.name.startswith("buffered") for x in a)) or (not content and a == []))
                                                                                   for a in e.args + list(e.kwargs.values()))]
             out.append((it, o, sends))
@@ -2456,8 +2683,14 @@ def _o79(chk, drv):
     late = [c for c in sc if not any(gw.path_exists(gw.node_of(c), gw.node_of(r)) for r in res)]
     opaque = [c.func.attr for c in walk_body(wx) if isinstance(c, ast.Call) and is_self_attr(c.func) and c.func.attr in wm and c.func.attr not in ship and c.func.attr != wd.name
               and any(isinstance(x, ast.Attribute) and x.attr in ("result", "exception") for x in ast.walk(wm[c.func.attr]))]
+    # the future handed to something else than result() / exception() (concurrent.futures.wait(...), a done() poll, a callback ...): a wait in a spelling this rule does not know
+    elsewhere = [x for x in walk_body(wx) if isinstance(x, ast.Call) and not (isinstance(x.func, ast.Attribute) and x.func.attr in ("result", "exception", "submit"))
+                 and (any(flow._is(a, flow.future, wdefs) for a in list(x.args) + [k.value for k in x.keywords] + [e for a in x.args if isinstance(a, (ast.List, ast.Tuple, ast.Set)) for e in a.elts])
+                      or (isinstance(x.func, ast.Attribute) and flow._is(x.func.value, flow.future, wdefs)))]
     if not res and opaque:
         chk.unknown("O7.9", f"the wait for the executor may happen inside `{opaque[0]}`, which is not analysed together with `{wd.name}`", wd)
+    elif not res and elsewhere:
+        chk.unknown("O7.9", f"how `{wd.name}` waits for the executor is not recognised (`{short(elsewhere[0], 50)}` instead of result() / exception() on the future)", elsewhere[0])
     else:
         ok = bool(res) and bool(late) and all(gw.dominated_by_nodes(gw.node_of(j), [gw.node_of(c) for c in late]) for j in jp)
         chk.ob("O7.9", "the executor has finished before the final drain", ok, late[0] if late else (sc[0] if sc else wd), "" if ok else "no drain after the wait for the executor covers every path to JoinPointReached")
@@ -2499,8 +2732,23 @@ def _sample_type_position(drv, arity):
         if not ys:
             continue
         here = None
+        binds = {}
+        for n in walk_body(f):
+            if isinstance(n, ast.Assign):
+                for t in n.targets:
+                    if isinstance(t, ast.Name):
+                        binds.setdefault(t.id, []).append(n.value)
+            elif isinstance(n, ast.Name) and isinstance(n.ctx, ast.Store) and not (isinstance(source.parent(n), ast.Assign) and n in source.parent(n).targets):
+                binds.setdefault(n.id, []).append(None)  # bound some other way (loop target, unpacking, with ... as): not followed
+
+        def reads_prop(e):  # the property read itself, or a local every binding of which is such a read
+            if isinstance(e, ast.Name):
+                vs = binds.get(e.id, [])
+                return bool(vs) and all(isinstance(v, ast.Attribute) and v.attr in props for v in vs)
+            return isinstance(e, ast.Attribute) and e.attr in props
+
         for y in ys:
-            p = {i for i, e in enumerate(y.elts) if isinstance(e, ast.Attribute) and e.attr in props}
+            p = {i for i, e in enumerate(y.elts) if reads_prop(e)}
             here = p if here is None else here & p
         if here:
             pos = here if pos is None else pos | here
@@ -2530,38 +2778,67 @@ def _o711(chk, drv, ex, holders):
     adds = [c for c in walk_body(exx) if isinstance(c, ast.Call) and is_add(c.func)]
     if not adds:
         raise AnchorMissing(f"the call of Sampler.{add_fn.name} on the executor's sampler in AsyncExecutor.__call__")
-    # the role chain: record field sample_type <- sample attribute A <- Sample.__init__ parameter Q <- parameter P of the sampler's add <- the executor's argument
-    SP, SA = drv.cls("SamplePostprocessor"), drv.cls("Sample")
-    spx = _Expand(drv, SP).function(drv.methods(SP)["__call__"])
-    reads = {a.attr for c in ast.walk(spx) if isinstance(c, ast.Call) and last_attr(c.func) == "put_value_cluster_level" and source.is_const(arg_of(c, 0, "name")) and arg_of(c, 0, "name").value in _RECORDS
-             for a in [arg_of(c, 6, "sample_type")] if isinstance(a, ast.Attribute)}
-    sinit = drv.methods(SA).get("__init__")
-    ctor = [c for p in qcalls(add_fn, ("put_nowait", "put")) for c in [local_defs(add_fn).get(p.args[0].id, p.args[0]) if p.args and isinstance(p.args[0], ast.Name) else (p.args[0] if p.args else None)]
-            if isinstance(c, ast.Call) and last_attr(c.func) == "Sample"]
+    # the role chain: record field sample_type <- sample attribute A <- (Sample constructor) <- parameter P of the sampler's add <- the executor's argument. The first two links
+    # are decided on VALUES: A is the attribute of the representative samples whose value the evaluated post-processor writes into the sample_type field of the three records
+    # (whatever locals / aliases / helpers the value travels through), P is the parameter of the add routine whose marker value arrives in attribute A of the object that the
+    # evaluated add routine enqueues (whatever the constructor of that object looks like).
+    sm = drv.methods(S)
+    add_orig = sm.get(add_fn.name, add_fn)
+    runs = getattr(drv, "_c07_pp", None)
+    if not runs:
+        chk.unknown("O7.11", "which sample attribute becomes the sample type of the records is not recognised: the post-processor was not evaluated (see O7.5)", add_orig)
+        return
+    A = set()
+    for f, s_, t_, _ in runs[0].records:
+        if s_ is None or t_ is not None or f.get("name") not in _RECORDS:
+            continue
+        v = f.get("sample_type")
+        if isinstance(v, _T) and v.op == "attr" and v.args[0] is s_:
+            A.add(v.args[1])  # read from the sample without a representative value: the term names the attribute
+        else:
+            A |= {k for k, x in s_.f.items() if not isinstance(x, (_O, list, dict)) and x is not None and _same(x, v)} or {None}
     P = None
-    if len(reads) == 1 and sinit is not None and len(ctor) == 1:
-        A = next(iter(reads))
-        Q = [n.value.id for n in walk_body(sinit) if isinstance(n, ast.Assign) and any(is_self_attr(t, A) for t in n.targets) and isinstance(n.value, ast.Name) and n.value.id in params_of(sinit)]
-        if len(Q) == 1:
-            a = source.bind_args(ctor[0], sinit).get(Q[0])
-            if isinstance(a, ast.Name) and a.id in params_of(add_fn):
-                P = a.id
+    why = f"sample attribute(s) whose value the post-processor records as sample type: {sorted(map(str, A))}"
+    if len(A) == 1 and None not in A:
+        attr = next(iter(A))
+        ps = params_of(add_orig)[1:] + [a.arg for a in add_orig.args.kwonlyargs]
+        try:
+            def make(oracle):
+                qm = _QueueModel([])
+                marks = {p: _T("global", f"arg:{p}") for p in ps}
+                return (qm, marks), lambda: _sampler_eval(drv, S, q, add_orig, qm, [], marks, oracle)
+
+            found = set()
+            for (qm, marks), (ret, exc, it) in _explore(make):
+                for obj in qm.put_calls:
+                    v = _Interp([drv]).getattr(obj, attr) if isinstance(obj, _O) else None
+                    found.add(next((p for p, m in marks.items() if v is m or (isinstance(v, _T) and v == m)), None))
+            if len(found) == 1 and None not in found:
+                P = next(iter(found))
+            else:
+                why = f"attribute `{attr}` of the enqueued object is fed from parameter(s) {sorted(map(str, found))} of `{add_orig.name}`"
+        except (_Undecided, _Need) as x:
+            why = f"`{add_orig.name}` not evaluated: {x}"
     if P is None:
-        chk.unknown("O7.11", f"the parameter of Sampler.{add_fn.name} that becomes the sample type of the records is not recognised (sample attribute read by the post-processor: {sorted(reads)})", add_fn)
+        chk.unknown("O7.11", f"the parameter of Sampler.{add_fn.name} that becomes the sample type of the records is not recognised ({why})", add_orig)
         return
     for c in adds:
         L = source.enclosing(c, (ast.AsyncFor, ast.For))
         targets = (L.target.elts if isinstance(L.target, ast.Tuple) else [L.target]) if L is not None else []
         pos = _sample_type_position(drv, len(targets)) if targets else []
-        a = source.bind_args(c, add_fn).get(P)
-        if L is None or len(pos) != 1 or a is None:
+        a = source.bind_args(c, add_orig).get(P)
+        if L is None or len(pos) != 1 or a is None or not isinstance(targets[pos[0]], ast.Name):
             chk.unknown("O7.11", f"request loop / position of the sample type in what the schedule yields / argument for `{P}` not recognised (positions {pos})", c)
             continue
         want = targets[pos[0]]
         r = a
-        while isinstance(r, ast.Name) and r.id in edefs and not (isinstance(want, ast.Name) and r.id == want.id):
+        while isinstance(r, ast.Name) and r.id in edefs and r.id != want.id:
             r = edefs[r.id]
-        ok = isinstance(r, ast.Name) and isinstance(want, ast.Name) and r.id == want.id
+        ok = isinstance(r, ast.Name) and r.id == want.id
+        if not ok and any(isinstance(x, ast.Name) and x.id == want.id for x in ast.walk(source.inline_node(r, edefs))):
+            # computed FROM the schedule's sample type, but not the value itself: whether it is preserved is a question about values this rule has no answer to
+            chk.unknown("O7.11", f"`{P}` := {short(a, 40)} is computed from the schedule's sample type `{want.id}`; whether it equals it is not decided", c)
+            continue
         chk.ob("O7.11", "sampler.add receives the sample type yielded by the schedule for this request", ok, c,
                f"`{P}` := {short(a, 40)}; the schedule's sample type is loop target {pos[0]} (`{u(want)}`) of {[u(t) for t in targets]}")
 
@@ -2934,4 +3211,68 @@ VARIANTS += [
      V("", "break", _D, "                self.send_samples()\n                self.sampler = Sampler(", "                self.sampler = Sampler(")],
     V("R2 executor: the sample-type local is bound to a constant", "break", _D, _V_ADD_CALL, "                kind = metrics.SampleType.Normal\n                self.sampler.add(\n                    self.task,\n                    self.client_id,\n                    kind,", "O7.11"),
     V("R2 Sampler.add hands the client id to the Sample as its sample type", "break", _D, "                    task,\n                    sample_type,\n                    meta_data,\n                    latency,", "                    task,\n                    client_id,\n                    meta_data,\n                    latency,", "O7.11"),
+]
+
+
+# texts shared by the round-3 variants
+_V_DRAIN = "        try:\n            while True:\n                samples.append(self.q.get_nowait())\n        except queue.Empty:\n            pass\n        return samples"
+_V_IMPORT = ("import concurrent.futures\n", "import concurrent.futures\nimport contextlib\n")
+
+
+def _v_suppress(what="queue.Empty", test="True"):
+    return f"        with contextlib.suppress({what}):\n            while {test}:\n                samples.append(self.q.get_nowait())\n        return samples"
+
+
+_V_PUT = "        try:\n            self.q.put_nowait(\n                Sample("
+_V_PUT_VIA = "        try:\n            self._enqueue(\n                Sample("
+_V_PUT_HELPER = "    def _enqueue(self, item):\n        self.q.put_nowait(item)\n\n    @property\n    def samples(self):\n"
+_V_US_CLASS = "    def __init__(self, client_id, samples):\n        self.client_id = client_id\n        self.samples = samples\n"
+_V_TF_CLASS = "class TaskFinished:\n    def __init__(self, metrics, next_task_scheduled_in):\n        self.metrics = metrics\n        self.next_task_scheduled_in = next_task_scheduled_in\n"
+_V_PUT_VALUE = r"self\.metrics_store\.put_value_cluster_level\("
+_V_SAMPLE_LOOP = "        for idx, sample in enumerate(raw_samples):\n"
+
+VARIANTS += [
+    # ---- hardening round 3: the drain / add / message / sample-type obligations are decided on values; shapes they now accept (keep), the same shapes with a defect (break) -----
+    [V("R3 drain under contextlib.suppress(queue.Empty)", "keep", _D, _V_DRAIN, _v_suppress()), V("", "keep", _D, *_V_IMPORT)],
+    V("R3 drain: emptiness test instead of the Empty signal (single consumer)", "keep", _D, _V_DRAIN, "        while not self.q.empty():\n            samples.append(self.q.get_nowait())\n        return samples"),
+    V("R3 drain: get(block=False), walrus-free accumulate into a second name", "keep", _D, _V_DRAIN,
+      "        drained = samples\n        while True:\n            try:\n                drained.append(self.q.get(block=False))\n            except queue.Empty:\n                return drained"),
+    [V("R3 suppress(Exception): every error of the dequeue ends the drain silently", "break", _D, _V_DRAIN, _v_suppress("Exception"), "O7.1"), V("", "break", _D, *_V_IMPORT)],
+    [V("R3 suppress(queue.Full): the Empty that ends the drain escapes with what was read", "break", _D, _V_DRAIN, _v_suppress("queue.Full"), "O7.1"), V("", "break", _D, *_V_IMPORT)],
+    [V("R3 suppress shape, drain stops after 1000 elements", "break", _D, _V_DRAIN, _v_suppress(test="len(samples) < 1000"), "O7.1"), V("", "break", _D, *_V_IMPORT)],
+    V("R3 drain returns a fresh list instead of what it read", "break", _D, _V_DRAIN, _V_DRAIN.replace("        return samples", "        return []"), "O7.1"),
+    [V("R3 add: the put in a helper method", "keep", _D, _V_PUT, _V_PUT_VIA), V("", "keep", _D, "    @property\n    def samples(self):\n", _V_PUT_HELPER)],
+    [V("R3 add helper enqueues only samples without a throughput", "break", _D, _V_PUT, _V_PUT_VIA, "O7.1"),
+     V("", "break", _D, "    @property\n    def samples(self):\n", _V_PUT_HELPER.replace("        self.q.put_nowait(item)\n", "        if item.throughput is None:\n            self.q.put_nowait(item)\n"))],
+    [V("R3 add helper swallows every error of the put", "break", _D, _V_PUT, _V_PUT_VIA, "O7.1"),
+     V("", "break", _D, "    @property\n    def samples(self):\n", _V_PUT_HELPER.replace("        self.q.put_nowait(item)\n", "        try:\n            self.q.put_nowait(item)\n        except Exception:\n            pass\n"))],
+    V("R3 add enqueues the task instead of a sample", "break", _D, "                    dependent_timing,\n                )\n            )\n        except queue.Full:", "                    dependent_timing,\n                ).task\n            )\n        except queue.Full:", "O7.1"),
+    V("R3 UpdateSamples as a dataclass", "keep", _D, "class UpdateSamples:\n", "@dataclass(eq=False)\nclass UpdateSamples:\n    client_id: int\n    samples: list\n\n    def describe(self):\n        return len(self.samples)\n\n\nclass _UpdateSamplesOld:\n"),
+    V("R3 TaskFinished as a dataclass with a default", "keep", _D, _V_TF_CLASS, "@dataclass\nclass TaskFinished:\n    metrics: Optional[bytes]\n    next_task_scheduled_in: float = 0.0\n"),
+    V("R3 TaskFinished as a NamedTuple", "keep", _D, _V_TF_CLASS, "class TaskFinished(NamedTuple):\n    metrics: Optional[bytes]\n    next_task_scheduled_in: float\n"),
+    V("R3 dataclass TaskFinished declares its fields in the other order (positional call sites unchanged)", "break", _D, _V_TF_CLASS,
+      "@dataclass\nclass TaskFinished:\n    next_task_scheduled_in: float\n    metrics: Optional[bytes]\n", "O7.6"),
+    V("R3 dataclass UpdateSamples whose payload field is not a constructor parameter", "break", _D, "class UpdateSamples:\n",
+      "@dataclass\nclass UpdateSamples:\n    client_id: int\n    batch: list\n    samples: list = field(init=False, default_factory=list)\n\n\nclass _UpdateSamplesOld:\n", "O7.3"),
+    [V("R3 post-processor: store call and per-sample values hoisted into locals", "keep", _D, _V_PUT_VALUE, "put_value(", count=5, regex=True),
+     V("", "keep", _D, _V_SAMPLE_LOOP, "        put_value = self.metrics_store.put_value_cluster_level\n" + _V_SAMPLE_LOOP),
+     V("", "keep", _D, r"sample_type=sample\.sample_type,", "sample_type=kind,", count=3, regex=True),
+     V("", "keep", _D, "                final_sample_count += 1\n", "                final_sample_count += 1\n                kind = sample.sample_type\n")],
+    V("R3 Sample stores the client id as its sample type", "break", _D, "        self.sample_type = sample_type\n        self.request_meta_data", "        self.sample_type = client_id\n        self.request_meta_data", "O7.11"),
+    [V("R3 hoisted shape, Sample stores the task as its sample type", "break", _D, _V_PUT_VALUE, "put_value(", "O7.11", count=5, regex=True),
+     V("", "break", _D, _V_SAMPLE_LOOP, "        put_value = self.metrics_store.put_value_cluster_level\n" + _V_SAMPLE_LOOP),
+     V("", "break", _D, "        self.sample_type = sample_type\n        self.request_meta_data", "        self.sample_type = task\n        self.request_meta_data")],
+    V("R3 hand-over bound to a local that is never read again", "break", _D, _V_HANDOVER, "        m = self.metrics_store.to_externalizable(clear=True)\n        self.driver_actor.on_task_finished(None, waiting_period)", "O7.6"),
+]
+
+VARIANTS += [
+    V("R3 kept samples through itertools.islice", "keep", _D, _V_LOOP_HEAD, "        for sample in itertools.islice(raw_samples, 0, None, self.downsample_factor):\n            if True:\n"),
+    V("R3 islice starts at the second sample", "break", _D, _V_LOOP_HEAD, "        for sample in itertools.islice(raw_samples, 1, None, self.downsample_factor):\n            if True:\n", "O7.5"),
+    [V("R3 schedule generator yields the sample type through a local", "keep", _D, r"                        self\.task_progress_control\.sample_type,\n", "                        kind,\n", count=2, regex=True),
+     V("", "keep", _D, r"                    yield \(\n                        next_scheduled,\n",
+       "                    kind = self.task_progress_control.sample_type\n                    yield (\n                        next_scheduled,\n", count=2, regex=True)],
+    [V("R3 yielded local, executor hands the percent-completed value to the sampler as sample type", "break", _D, r"                        self\.task_progress_control\.sample_type,\n", "                        kind,\n", "O7.11", count=2, regex=True),
+     V("", "break", _D, r"                    yield \(\n                        next_scheduled,\n",
+       "                    kind = self.task_progress_control.sample_type\n                    yield (\n                        next_scheduled,\n", count=2, regex=True),
+     V("", "break", _D, _V_ADD_CALL, "                self.sampler.add(\n                    self.task,\n                    self.client_id,\n                    percent_completed,")],
 ]
